@@ -153,4 +153,31 @@ func ruleEntryPoints(c *Ctx) {
 		bad = "expected unsupported-CPU, option-error and success paths"
 	}
 	c.Check(bad == "", "newInternalParsedJson:entry", p.Pos(fd), "unsupported CPU → error; option error → (nil, err); else a non-nil state", "newInternalParsedJson: "+bad, "")
+	// re-use: the caller's ParsedJson is copied into *its own* internal state, and only then is the copy's back pointer cleared
+	badReuse, nReuse := "", 0
+	for _, sp := range sps {
+		if !sp.Feasible() || sp.RetNode == nil || !hasCond(sp, "P:reuse.internal", token.NEQ, "nil") {
+			continue
+		}
+		nReuse++
+		copyAt, clearAt := -1, -1
+		for _, ef := range sp.Effects {
+			if ef.Kind != "store" {
+				continue
+			}
+			if ef.Target == "P:reuse.internal.ParsedJson" && ef.Val.String() == "P:reuse" && copyAt < 0 {
+				copyAt = ef.At
+			}
+			if ef.Target == "P:reuse.internal.ParsedJson.internal" && ef.Val.String() == "nil" {
+				clearAt = ef.At
+			}
+		}
+		if copyAt < 0 || clearAt < copyAt {
+			badReuse = "with a reusable state the caller's ParsedJson is not first copied into reuse.internal and then detached (internal = nil), in that order" + condsDesc(sp, 3)
+		}
+		if len(sp.Ret) == 2 && sp.Ret[1].String() == "nil" && sp.Ret[0].String() != "P:reuse.internal" {
+			badReuse = "with a reusable state the result is " + sp.Ret[0].String() + ", expected reuse.internal"
+		}
+	}
+	c.Check(badReuse == "" && nReuse >= 1, "newInternalParsedJson:reuse", p.Pos(fd), "pj = reuse.internal; pj.ParsedJson = *reuse; then pj.ParsedJson.internal = nil", "newInternalParsedJson: "+badReuse, "Parse(b, prev) with the result of an earlier Parse")
 }
